@@ -23,7 +23,7 @@ RULE = (
     "hash of the table."
     ' Further: read accessors before the summaries; tables with non-ASCII names loaded in an interpreter whose locale encoding is ASCII.'
 )
-ASSUMPTIONS = ["float comparison: relative 1e-9 (std: absolute 1e-9 x largest magnitude)", "subject names unique, group names without '-' (C18 covers names)"]
+ASSUMPTIONS = ["float comparison: relative 1e-9 (std: absolute 1e-9 x largest magnitude)", "subject names unique (a third of the tables with quotes, tabs, spaces and non-ASCII characters in them, written with the aggregator's csv dialect), group names without '-' (C18 covers names)"]
 MINIMUM = {"C20.summaries_judged": 3000, "C20.subject_lookups_judged": 1000, "C20.across_groups_judged": 100, "C20.permutations_judged": 200}
 BUDGET_S = {"quick": 1200, "thorough": 900}
 
@@ -46,6 +46,11 @@ def make_table(seed, i):
     groups = [f"g{j}x" for j in range(ng)]
     metrics = [f"m{j}" for j in range(nm)]
     subjects = [f"s{j:03d}" for j in range(ns)]
+    if i % 3 == 1:
+        # names as data sets have them: spaces, quotes, commas, tabs inside, non-ASCII; the table is then written the way the
+        # aggregator writes it (csv.writer, tab-separated), so that a name which needs quoting is quoted in the file
+        deco = ['case {j} "left"', '"q{j}"', "it's {j}", "a,b;{j}", "tab\tin {j}", "pätient_{j}", "{j} ", " {j}", "x''{j}\"", "患者{j}", "s{j}\\n", "#{j}", "{j}"]
+        subjects = [deco[(j + i) % len(deco)].format(j=j) for j in range(ns)]
     r.shuffle(subjects)
     p_missing = float(r.choice([0.0, 0.1, 0.4, 0.8]))
     scale = float(r.choice([1.0, 1.0, 1e-3, 1e6, 1e120, 1e-120]))
@@ -66,6 +71,15 @@ def finite(v):
 
 
 def write_tsv(path, groups, metrics, subjects, cells):
+    if any(c in s for s in subjects for c in '"\t'):
+        import csv
+
+        with open(path, "w", encoding="utf8", newline="") as fh:
+            w = csv.writer(fh, delimiter="\t", lineterminator="\n")
+            w.writerow(["subject_name"] + [f"{g}-{m}" for g in groups for m in metrics])
+            for s in subjects:
+                w.writerow([s] + [(repr(cells[(s, g, m)]) if isinstance(cells[(s, g, m)], float) else cells[(s, g, m)]) for g in groups for m in metrics])
+        return
     with open(path, "w", encoding="utf8", newline="") as fh:
         fh.write("\t".join(["subject_name"] + [f"{g}-{m}" for g in groups for m in metrics]) + "\n")
         for s in subjects:
